@@ -28,6 +28,12 @@ type stackItem struct {
 	at bytes.Index
 }
 
+// maxIncludeDepth limits the nesting of INCLUDE directives: every directive
+// remembers how its file was reached, and these traces are copied for every
+// file, so the memory grows with the square of the depth (4000 files deep:
+// 160 MB).
+const maxIncludeDepth = 1000
+
 // Push pushed new scanner into stack with position in this scanner where it was
 // pushed. This position will be necessary for creating stack trace.
 func (s *Stack) Push(scanner *Scanner, at bytes.Index) error {
@@ -39,6 +45,10 @@ func (s *Stack) Push(scanner *Scanner, at bytes.Index) error {
 
 	if _, ok := s.uniqueFiles[name]; ok {
 		return errors.New(jerr.RecursionIsProhibited)
+	}
+
+	if len(s.stack) >= maxIncludeDepth {
+		return errors.New(jerr.IncludesNestedTooDeep)
 	}
 
 	s.stack = append(s.stack, stackItem{
